@@ -268,6 +268,8 @@ fn geometries(q: bool) -> Vec<(&'static str, Vec<f32>)> {
         for (a0, a1) in [(0.0f32, 360.0f32), (0.0, 90.0), (90.0, 180.0), (-90.0, 90.0)] {
             g.push(("sweep", vec![c.0, c.1, a0, a1]));
         }
+        // an angle range of more than one turn (t = a / 720 stays below 1/2)
+        g.push(("sweep", vec![c.0, c.1, 0.0, 720.0]));
     }
     g
 }
